@@ -16,6 +16,8 @@ import CV.Drv.Stream
 import CV.Drv.Node
 import CV.Drv.Http14
 import CV.Drv.Conn
+import CV.Drv.ClassTable
+import CV.Drv.NodeTwo
 /-
 cvdriver <model> : reads op lines on stdin, answers one line per op on stdout.
 Imports only CV.Model.* / CV.Drv.* (no Mathlib) so that it links as an executable.
@@ -27,7 +29,8 @@ def machines : List (String × Machine) :=
     ("staticpath", staticPathMachine), ("ranges", rangesMachine),
     ("auth", C20.authMachine), ("session", C20.sessionMachine), ("vhost", C20.vhostMachine),
     ("httpresp", httprespMachine), ("ws", wsMachine),
-    ("http", httpMachine), ("poller", pollerMachine), ("wake", wakeMachine), ("stream", streamMachine), ("node", nodeMachine), ("http14", http14Machine), ("conn", C12.connMachine) ]
+    ("http", httpMachine), ("poller", pollerMachine), ("wake", wakeMachine), ("stream", streamMachine), ("node", nodeMachine), ("node2", node2Machine), ("http14", http14Machine), ("conn", C12.connMachine),
+    ("classtable", CT.classTableMachine) ]
 
 def main (args : List String) : IO UInt32 := do
   match args with
